@@ -1106,7 +1106,7 @@ func runC15Topdim(c *Ctx) {
 		// answered from the model
 		it := &k4interp{p: c.P, m: m, mem: map[string]k4val{}, inline: func(g *ssa.Function) bool {
 			n := FuncName(g)
-			return n == "geom.maxInt" || n == "geom.(GeometryCollection).walk" || (g.Parent() != nil && rootFunc(g) == f)
+			return n == "geom.maxInt" || n == "geom.(GeometryCollection).walk" || n == "geom.(GeometryCollection).IsEmpty" || (g.Parent() != nil && rootFunc(g) == f)
 		}}
 		it.mem["$0.geoms"] = k4val{kind: 8, s: "LEAF", ln: nl, cp: nl}
 		considered := map[int]bool{}
